@@ -2,6 +2,7 @@ package analysis
 
 import (
 	"fmt"
+	"net/url"
 	"path"
 	"sort"
 	"strings"
@@ -10,6 +11,7 @@ import (
 	"github.com/go-openapi/analysis/internal/flatten/replace"
 	"github.com/go-openapi/analysis/internal/flatten/schutils"
 	"github.com/go-openapi/analysis/internal/flatten/sortref"
+	"github.com/go-openapi/jsonpointer"
 	"github.com/go-openapi/spec"
 	"github.com/go-openapi/swag"
 )
@@ -27,6 +29,11 @@ func (isn *InlineSchemaNamer) Name(key string, schema *spec.Schema, aschema *Ana
 	debugLog("naming inlined schema at %s", key)
 
 	parts := sortref.KeyParts(key)
+	if unescaped, err := url.PathUnescape(key); err == nil {
+		// the key may be a rendered (URL-escaped) $ref: names are built from the actual tokens
+		parts = sortref.KeyParts(unescaped)
+	}
+
 	for _, name := range namesFromKey(parts, aschema, isn.Operations) {
 		if name == "" {
 			continue
@@ -35,6 +42,8 @@ func (isn *InlineSchemaNamer) Name(key string, schema *spec.Schema, aschema *Ana
 		// create unique name
 		mangle := mangler(isn.opts)
 		newName, isOAIGen := uniqifyName(isn.Spec.Definitions, mangle(name))
+		// JSON pointer to the new definition (a name kept as is may contain '/' or '~')
+		newPath := path.Join(definitionsPath, jsonpointer.Escape(newName))
 
 		// clone schema
 		sch := schutils.Clone(schema)
@@ -42,7 +51,7 @@ func (isn *InlineSchemaNamer) Name(key string, schema *spec.Schema, aschema *Ana
 		// replace values on schema
 		debugLog("rewriting schema to ref: key=%s with new name: %s", key, newName)
 		if err := replace.RewriteSchemaToRef(isn.Spec, key,
-			spec.MustCreateRef(path.Join(definitionsPath, newName))); err != nil {
+			spec.MustCreateRef(newPath)); err != nil {
 			return ErrInlineDefinition(newName, err)
 		}
 
@@ -62,7 +71,7 @@ func (isn *InlineSchemaNamer) Name(key string, schema *spec.Schema, aschema *Ana
 			}
 
 			// NOTE: compare rendered $ref's (a name kept as is may need URL escaping)
-			newRef := spec.MustCreateRef(path.Join(definitionsPath, newName))
+			newRef := spec.MustCreateRef(newPath)
 			if r.Ref.String() != key && (r.Ref.String() != newRef.String() || path.Dir(v.String()) == definitionsPath) {
 				continue
 			}
@@ -71,7 +80,7 @@ func (isn *InlineSchemaNamer) Name(key string, schema *spec.Schema, aschema *Ana
 
 			// rewrite $ref to the new target
 			if err := replace.UpdateRef(isn.Spec, k,
-				spec.MustCreateRef(path.Join(definitionsPath, newName))); err != nil {
+				spec.MustCreateRef(newPath)); err != nil {
 				return err
 			}
 		}
@@ -97,7 +106,7 @@ func (isn *InlineSchemaNamer) Name(key string, schema *spec.Schema, aschema *Ana
 		isn.flattenContext.newRefs[key] = &newRef{
 			key:      key,
 			newName:  newName,
-			path:     path.Join(definitionsPath, newName),
+			path:     newPath,
 			isOAIGen: isOAIGen,
 			resolved: resolved,
 			schema:   sch,
